@@ -2175,6 +2175,191 @@ func (c *ctx) c14e2eWindows() {
 	}
 }
 
+// ---------------------------------------------------------------------------------
+// (G) the relay's detector in stand-by: ONE read of server output through the REAL wrapOutput of
+// trzsz.NewTrzszRelay, for every framing (none / `%output %N ` / `%extended-output %N A : `) x
+// relay with / without a tunnel connector x trigger with a port / with ":0" / without a port
+// field, with ids, versions and surrounding output that contain the port's digits.
+// fn "stand_by_read" vs RelayNeg.rn_stand_by_read (C06's detector model with the arguments the
+// relay passes, read from the source as values, plus listenForTunnel's exchange).
+
+type c14trigCase struct {
+	framing   int // 0 plain, 1 %output, 2 %extended-output
+	connector bool
+	portKind  int // 0 no port field, 1 ":0", 2 a port
+	port      int
+	mode      byte
+	ver, id   string
+	pre, tail string
+	repeat    bool // the same read twice: the second must not be taken (dedup), unless the id is a plain one
+	// results
+	chunk, got []byte
+	status     int32
+	relayPort  int
+	viol       [][3]string
+	fwdOK      bool
+}
+
+var c14framings = []string{"plain", "%output", "%extended-output"}
+
+func (tc *c14trigCase) tunnelLabel() string {
+	switch {
+	case tc.connector && tc.portKind > 0:
+		return map[int]string{1: "connector+port0", 2: "connector+port"}[tc.portKind]
+	case tc.connector:
+		return "connector"
+	case tc.portKind > 0:
+		return "port"
+	}
+	return "none"
+}
+
+func c14retagID(id string) string {
+	if len(id) >= 13 && strings.HasSuffix(id, "00") {
+		return id[:len(id)-2] + "20"
+	}
+	return id
+}
+
+func (tc *c14trigCase) build() {
+	fp := []string{"", "%output %1 ", "%extended-output %12 0 : "}[tc.framing]
+	pf := ""
+	switch tc.portKind {
+	case 1:
+		pf = ":0"
+	case 2:
+		pf = ":" + strconv.Itoa(tc.port)
+	}
+	tc.chunk = []byte(fp + tc.pre + "\x1b7\x07::TRZSZ:TRANSFER:" + string(tc.mode) + ":" + tc.ver + ":" + tc.id + pf + "\r\n" + tc.tail)
+}
+
+// what must reach the client, stated without the model: the server's bytes with the id re-tagged
+// (13+ digits ending in 00 -> ..20), and - if the trigger is taken - "#R" behind the trigger's
+// last field and, with connector and port, the relay's port in place of the server's IN THE
+// TRIGGER ONLY; everything before and after is the server's
+func (tc *c14trigCase) expected(taken bool) *regexp.Regexp {
+	fp := []string{"", "%output %1 ", "%extended-output %12 0 : "}[tc.framing]
+	q := regexp.QuoteMeta
+	pf := ""
+	switch tc.portKind {
+	case 1:
+		pf = ":0"
+	case 2:
+		pf = ":" + strconv.Itoa(tc.port)
+		if taken && tc.connector {
+			pf = `:(\d+)`
+		} else {
+			pf = q(pf)
+		}
+	}
+	mark := ""
+	if taken {
+		mark = "#R"
+	}
+	return regexp.MustCompile(`^(?s)` + q(fp+tc.pre+"\x1b7\x07::TRZSZ:TRANSFER:"+string(tc.mode)+":"+tc.ver+":"+c14retagID(tc.id)) + pf + mark + q("\r\n"+tc.tail) + `$`)
+}
+
+func (tc *c14trigCase) run() {
+	g := c14newRig()
+	defer g.close()
+	if tc.connector {
+		g.relay.SetTunnelConnector(func(port int) net.Conn { return nil })
+	}
+	tc.build()
+	g.srvW.Write(tc.chunk)
+	tc.got = c14recv(g.atCli, c14wait)
+	tc.status = g.status()
+	expectTaken := tc.framing == 0 || (tc.connector && tc.portKind > 0)
+	taken := tc.status == 1
+	label := c14framings[tc.framing] + ":" + tc.tunnelLabel()
+	detail := fmt.Sprintf("server-read=%s forwarded=%s status=%d", hx(tc.chunk), hx(tc.got), tc.status)
+	if expectTaken && (!taken || !bytes.Contains(tc.got, []byte("#R"))) {
+		tc.viol = append(tc.viol, [3]string{"relay-trigger-not-taken:" + label, "a well-formed, fresh trigger in this framing and tunnel configuration was not taken by the relay " +
+			"(it stays in stand-by / does not mark the trigger as relayed / leaves the server's port): the client starts a transfer the relay takes no part in", detail})
+	}
+	if !expectTaken && taken {
+		tc.viol = append(tc.viol, [3]string{"relay-trigger-taken:" + label, "a control-mode trigger was taken although the relay has no tunnel for it", detail})
+	}
+	if m := tc.expected(taken).FindSubmatch(tc.got); m == nil {
+		tc.viol = append(tc.viol, [3]string{"relay-trigger-altered:" + label, "what the relay forwarded differs from the server's read in more than the id re-tag, the #R mark and the " +
+			"port of the trigger: bytes before or after the trigger, or other fields of it, were changed", detail})
+		if pm := c14portRe.FindSubmatch(tc.got); pm != nil {
+			tc.relayPort, _ = strconv.Atoi(string(pm[2]))
+		}
+	} else {
+		tc.fwdOK = true
+		if len(m) > 1 {
+			tc.relayPort, _ = strconv.Atoi(string(m[1]))
+			if tc.relayPort == tc.port || tc.relayPort == 0 {
+				tc.viol = append(tc.viol, [3]string{"relay-port-not-rewritten:" + c14framings[tc.framing], "the relay has a tunnel connector and the trigger carries a port, but the " +
+					"forwarded trigger still names the server's port", detail})
+			}
+		}
+	}
+	if taken { // back to stand-by (closes the relay's tunnel listener)
+		g.cliW.Write([]byte{3})
+		g.leaveHandshake(c14wait)
+	}
+}
+
+func (c *ctx) c14relayTriggers() {
+	var cases []*c14trigCase
+	n := 0
+	freshID := func(suffix string) string {
+		n++
+		return fmt.Sprintf("%011d%s", 27182818284+int64(n)*7, suffix)
+	}
+	for framing := 0; framing < 3; framing++ {
+		for _, conn := range []bool{false, true} {
+			for pk := 0; pk < 3; pk++ {
+				port := 8022 + c.rng.Intn(3)*1000
+				ps := strconv.Itoa(port)
+				// the port's digits in the version, in the id, before and after the trigger
+				variants := []c14trigCase{
+					{ver: "1.1.6", id: freshID("00"), pre: "", tail: ""},
+					{ver: ps + ".1.6", id: freshID("00"), pre: "ssh -p " + ps + " host:" + ps + " ", tail: "forwarding :" + ps + " and " + ps + ":" + ps + "\r\n"},
+					{ver: "1." + ps + ".0", id: freshID("20"), pre: "port:" + ps + " ", tail: ":" + ps},
+					{ver: "1.1." + ps, id: ps + freshID("00")[4:], pre: "", tail: "$ "},
+					{ver: "1.1.6", id: freshID("10"), pre: "x:" + ps + ":" + ps + " ", tail: ""},
+				}
+				for i := range variants {
+					tc := variants[i]
+					tc.framing, tc.connector, tc.portKind, tc.port, tc.mode = framing, conn, pk, port, "RSD"[c.rng.Intn(3)]
+					cases = append(cases, &tc)
+				}
+			}
+		}
+	}
+	for i, m := 0, c.pick(80, 1500); i < m; i++ {
+		port := []int{1, 80, 8022, 65535, 12345, 2}[c.rng.Intn(6)]
+		ps := strconv.Itoa(port)
+		tc := &c14trigCase{framing: c.rng.Intn(3), connector: c.rng.Intn(2) == 0, portKind: c.rng.Intn(3), port: port, mode: "RSD"[c.rng.Intn(3)],
+			ver: fmt.Sprintf("%d.%d.%d", c.rng.Intn(3), c.rng.Intn(30), c.rng.Intn(10)), id: freshID([]string{"00", "00", "20", "10", "37"}[c.rng.Intn(5)])}
+		if c.rng.Intn(2) == 0 {
+			tc.pre = []string{"user@host:~$ trz\r\n", "a:" + ps + " ", ps + ":" + ps + ":", "::TRZSZ:TRANSFER:X "}[c.rng.Intn(4)]
+			if tc.framing != 0 {
+				tc.pre = strings.ReplaceAll(tc.pre, "\r\n", " ")
+			}
+		}
+		if c.rng.Intn(2) == 0 {
+			tc.tail = []string{"\x1b[?25l", ":" + ps + "\r\n", "Last login :" + ps, "%output %1 x\r\n"}[c.rng.Intn(4)]
+		}
+		cases = append(cases, tc)
+	}
+	parallelDo(len(cases), 16, func(i int) { cases[i].run() })
+	for _, tc := range cases {
+		for _, v := range tc.viol {
+			c.violate(v[0], v[1], v[2])
+		}
+		c.count("trig:" + c14framings[tc.framing] + ":" + tc.tunnelLabel() + map[bool]string{true: ":taken", false: ":passed"}[tc.status == 1])
+		conn := "0"
+		if tc.connector {
+			conn = "1"
+		}
+		c.emit(true, "stand_by_read", hx(tc.got)+"|"+strconv.Itoa(int(tc.status)), conn, strconv.Itoa(tc.relayPort), hx(tc.chunk))
+	}
+}
+
 func genRelayNeg(c *ctx) {
 	os.Unsetenv("TMUX") // checkTmux: noTmuxMode for NewTrzszRelay
 	sc := trzsz.VerifRelayStatusConsts()
@@ -2193,5 +2378,6 @@ func genRelayNeg(c *ctx) {
 	c.c14sequences()
 	c.c14chains()
 	c.c14server()
+	c.c14relayTriggers()
 	c.c14e2eWindows()
 }
